@@ -11,6 +11,13 @@
 //	         between (random source of a round fails at a seeded byte offset,
 //	         foreign / mutated message) and their retries; the whole process
 //	         state observed after every step and compared with the pure model
+//	env      the execution ENVIRONMENT as a parameter: the same sessions and
+//	         histories under GOMAXPROCS in {1, 2, 3, 5, 7, 12, 16, 24, 61, ...}
+//	         and collector settings off / 100 / 1, set around every single
+//	         step (a history may change its environment between any two
+//	         rounds); status and state after every step = the model, which has
+//	         no environment parameter (env.go)
+//	replay   `c18 replay <file>`: exactly the env-mode history of a replay file
 //	circuit  the embedded circuit against crypto/sha256 (validation)
 package main
 
@@ -21,7 +28,7 @@ import (
 
 func main() {
 	if len(os.Args) < 2 {
-		fmt.Fprintln(os.Stderr, "usage: c18 codec|proto|hist|circuit [flags]")
+		fmt.Fprintln(os.Stderr, "usage: c18 codec|proto|hist|env|circuit [flags] | c18 replay <file>")
 		os.Exit(2)
 	}
 	switch os.Args[1] {
@@ -31,6 +38,10 @@ func main() {
 		os.Exit(protoMode(os.Args[2:]))
 	case "hist":
 		os.Exit(histMode(os.Args[2:]))
+	case "env":
+		os.Exit(envMode(os.Args[2:]))
+	case "replay":
+		os.Exit(replayMode(os.Args[2:]))
 	case "circuit":
 		os.Exit(circuitMode(os.Args[2:]))
 	default:
